@@ -305,8 +305,14 @@ def make_optimizer():
             f1 = float(fun(x0 + 0.5))
             fb = np.asarray(fun(np.concatenate([x0 + 0.25, x0 - 0.25]))).reshape(-1)
             nfev = 2 + len(fb)
-            step = 0.125 * (1 + int(round(abs(f0 + 2 * f1 + 3 * float(fb.sum())) * 16)) % 5)
+            h = int(round(abs(f0 + 2 * f1 + 3 * float(fb.sum())) * 16))
+            step = 0.125 * (1 + h % 5)
             x = x0 + step * (1 + np.arange(len(x0)))
+            # every third answer is a small refinement step (or none): x0 + delta, delta in {0, 1e-12, 1e-9, 2e-5*|x|, 1e-4, 1}
+            if (h // 5) % 3 == 0:
+                kind = (h // 15) % 6
+                delta = [np.zeros(len(x0)), np.full(len(x0), 1e-12), np.full(len(x0), 1e-9), 2e-5 * np.abs(x0), np.full(len(x0), 1e-4), np.ones(len(x0))][kind]
+                x = x0 + delta
             r = OptimizerResult()
             r.x, r.fun, r.nfev = x, f0, nfev
             if _Ctx.task is not None:
@@ -823,6 +829,35 @@ def _oracle_mutation(tr, s, report, si):
             dropped = 1 <= lb < la and pb["layers"] == pa["layers"][:lb] and _hexes(pb["values"]) == _hexes(pa["values"][:cut])
             if not (same or dropped):
                 report("mutation-removal-contract", f"layer removal did not drop a non-empty proper suffix (individual {j}: {la} -> {lb} layers)", si)
+    # parameter search: every optimised layer of the mutated individual holds exactly the optimiser's result.x (no tolerance)
+    sub_ = submitted_indices(s)
+    if k in ("last", "param") and sub_ is not None:
+        for t, j in zip(s.tasks, sub_):
+            if t.exception is not None or j >= len(out.individuals):
+                continue
+            try:
+                pa, pb = evqe.plain_individual(arg.individuals[j]), evqe.plain_individual(out.individuals[j])
+                counts = [evqe.layer_n_parameters(l) for l in pa["layers"]]
+                offs = [sum(counts[:i]) for i in range(len(counts))]
+                expected = {}
+                if k == "last":
+                    opts = [it for it in t.items if it[0] == "opt"]
+                    if opts:
+                        expected[len(counts) - 1] = opts[-1][2]
+                else:
+                    indices, layer = list(range(len(counts))), None
+                    for it in t.items:
+                        if it[0] == "dec" and it[1][0] == "choice":
+                            layer = indices.pop(it[1][2])
+                        elif it[0] == "opt" and layer is not None:
+                            expected[layer] = it[2]
+                for layer, x in expected.items():
+                    got = pb["values"][offs[layer] : offs[layer] + counts[layer]]
+                    if _hexes(got) != _hexes(x):
+                        report("mutation-optimiser-result-not-stored", f"layer {layer} of the mutated individual {j} does not hold the optimiser's result.x: optimiser returned {list(x)}, the individual holds {list(got)} "
+                               f"(x0 was {pa['values'][offs[layer] : offs[layer] + counts[layer]]})", si)
+            except Exception as e:  # noqa: BLE001
+                report(f"mutation-unreadable-{type(e).__name__}", f"the result of parameter search for individual {j} cannot be inspected: {type(e).__name__}: {e}", si)
     # which individuals were submitted: exactly those whose draw was <= p; everything else is the same object
     sub = submitted_indices(s)
     if sub is not None:
